@@ -294,7 +294,7 @@ func main() {
 		bound := "all schedules"
 		if sc.Proto == "" {
 			ns := build(sc)
-			st = ns.Search(checker(sc, &echo, &other), 0, vkit.Deadline(60*time.Second, 10*time.Minute))
+			st = ns.Search(checker(sc, &echo, &other), 3000000, vkit.Deadline(60*time.Second, 10*time.Minute))
 		} else {
 			ns, err := buildReal(sc)
 			if err != nil {
@@ -308,7 +308,7 @@ func main() {
 				bound = fmt.Sprintf("<=%d departures from FIFO", k)
 				st = ns.Deviations(k, ck, vkit.Mine, vkit.Deadline(120*time.Second, 30*time.Minute))
 			} else {
-				st = ns.Search(ck, 0, vkit.Deadline(120*time.Second, 20*time.Minute))
+				st = ns.Search(ck, 3000000, vkit.Deadline(120*time.Second, 20*time.Minute))
 			}
 			fmt.Fprintf(os.Stderr, "%-60s states=%-8d trans=%-9d sinks=%-7d complete=%v viol=%d %.1fs\n", sc.Name, st.States, st.Transitions, st.Sinks, st.Complete, len(st.Violations), st.WallS)
 		}
